@@ -296,6 +296,9 @@ class G:
         if k is None:
             k = self.r.randint(0, 4)
         self.has_bomb = True
+        if self.r.random() < 0.5:
+            # by value: works on the items of an ALT-list, whose positions are all 0
+            return "?(dup %d !eq || %s)" % (self.r.choice([1, 2, 3, 5, 7, 10, 16]), " ".join(["drop"] * 14))
         return "?(pos %d !eq || %s)" % (k, " ".join(["drop"] * 14))
 
     # -------- statements: returns (text, newstack)
@@ -764,6 +767,19 @@ SEED_PROGRAMS_DW = [
     "entry {child} apply", "let D := ; D entry (|E| D unit root (== E))",
     "name", "raw name", "entry ?root name", "entry @AT_decl_file", "entry ?TAG_variable @AT_type",
     "entry attribute form", "entry ?haschildren", "unit version", "unit offset",
+]
+
+
+# Seeds that need something on the input stack: (program, input types)
+SEED_PROGRAMS_TYPED = [
+    ("?match", "SS"), ("!match", "SS"), ("(|A B| A B ?match)", "SS"), ("(|A B| A (=~ B))", "SS"), ("(=~ \"a.*\")", "S"),
+    ("?find", "SS"), ("?starts", "SS"), ("?ends", "SS"), ("add", "SS"), ("add", "II"), ("mod", "II"), ("div", "II"),
+    ("mul", "II"), ("sub", "II"), ("?lt", "II"), ("?eq", "SS"), ("?eq", "II"), ("swap add", "SS"), ("length", "S"),
+    ("elem", "S"), ("relem", "S"), ("\"%s-%s\"", "SS"), ("\"%d\"", "I"), ("\"%x %o %b\"", "III"), ("bin", "I"),
+    ("hex", "I"), ("value", "I"), ("type", "I"), ("pos", "S"), ("dup add", "I"), ("dup mul", "I"), ("(|A B| B A)", "IS"),
+    ("(|A| A A add)", "I"), ("[dup, dup 1 add]", "I"), ("(1 add, 2 add)", "I"), ("if (< 5) then 1 else 2", "I"),
+    ("let X := ; X X add", "I"), ("{1 add} apply", "I"), ("(|A| {A}) apply", "S"), ("?(length 2 ?gt)", "S"),
+    ("add length", "SS"), ("(|A B| [A, B])", "IS"), ("rot", "ISI"), ("over", "IS"), ("drop", "I"), ("swap", "SI"),
 ]
 
 
